@@ -1329,7 +1329,7 @@ fn build_partial_hash_table(
         // Evaluate aggregate inputs
         let agg_inputs: Result<Vec<ArrayRef>> = aggregates
             .iter()
-            .map(|a| evaluate_expr(batch, &a.input))
+            .map(|a| evaluate_expr(batch, &a.input).and_then(plain_values))
             .collect();
         let agg_inputs = agg_inputs?;
 
@@ -2016,7 +2016,7 @@ fn aggregate_batches_hash(
         // Evaluate aggregate inputs
         let agg_inputs: Result<Vec<ArrayRef>> = aggregates
             .iter()
-            .map(|a| evaluate_expr(batch, &a.input))
+            .map(|a| evaluate_expr(batch, &a.input).and_then(plain_values))
             .collect();
         let agg_inputs = agg_inputs?;
 
@@ -2105,6 +2105,19 @@ fn aggregate_batches_hash(
     }
 
     RecordBatch::try_new(schema.clone(), output_arrays).map_err(Into::into)
+}
+
+/// Aggregate inputs reach the row-at-a-time accumulators as plain arrays: the
+/// accumulators downcast by concrete value type, so a dictionary-encoded string
+/// column (small-build join gathers) would fall through every arm and MIN/MAX
+/// over it would answer NULL.
+fn plain_values(arr: ArrayRef) -> Result<ArrayRef> {
+    match arr.data_type() {
+        DataType::Dictionary(_, value_type) => {
+            arrow::compute::cast(&arr, value_type).map_err(Into::into)
+        }
+        _ => Ok(arr),
+    }
 }
 
 fn extract_group_key(arrays: &[ArrayRef], row: usize) -> GroupKey {
